@@ -429,7 +429,8 @@ func Check(r *ev.Run, replay string) {
 		fmt.Fprintf(os.Stderr, "c19 timing: partW %.1fs\n", time.Since(t0).Seconds())
 	}
 	partC(r, stride)
-	r.Set("rule", fmt.Sprintf("W: every function/method discovered on modules strings, strconv, math, bytes, base64, filepath, regexp (+regexp object), json.valid, string methods, byte_slice methods x ALL argument tuples over the per-parameter pools (strings %d values incl. invalid UTF-8, NUL, 300 x 'a'; ints %d incl. Min/MaxInt64; floats %d incl. NaN, +-Inf, -0, denormal; byte slices %d; bytes-like %d; string lists %d; numeric strings %d; paths %d; globs %d; regexp patterns %d; base64 inputs %d) for every accepted arity (up to 4 parameters), each through the object API and every %d-th (thorough: every) tuple through generated scripts; compared with the direct Go call (floats bit-wise, NaN==NaN); plus a single-substitution sweep of wrong-typed arguments / wrong argument counts (oracle: no Go panic). C: codecs base64/base32/hex/gzip/urlquery x all pool values, json x every value of depth <= 2 (lists/maps of width <= 2 over 35 scalars and, at depth 2, over the 2569 values of depth <= 1; quick: the second element at depth 2 ranges over the scalars only), object route all, script route all up to depth 1 and every 5th (thorough: 16th) at depth 2; malformed = all strings of length <= 4 over {A,=,!,\\xff,%%,z} per codec as string and as byte_slice, plus codec-specific sets (json: length <= 4 over 10 JSON symbols; base32: length <= 8 over {A,7,=,!}; gzip: every prefix and every single-byte substitution of a valid stream); json codec vs json.marshal/unmarshal on all of those. distinct = distinct (target, expected result) pairs",
+	partI(r, table)
+	r.Set("rule", fmt.Sprintf("W: every function/method discovered on modules strings, strconv, math, bytes, base64, filepath, regexp (+regexp object), json.valid, string methods, byte_slice methods x ALL argument tuples over the per-parameter pools (strings %d values incl. invalid UTF-8, NUL, 300 x 'a'; ints %d incl. Min/MaxInt64; floats %d incl. NaN, +-Inf, -0, denormal; byte slices %d; bytes-like %d; string lists %d; numeric strings %d; paths %d; globs %d; regexp patterns %d; base64 inputs %d) for every accepted arity (up to 4 parameters), each through the object API and every %d-th (thorough: every) tuple through generated scripts; compared with the direct Go call (floats bit-wise, NaN==NaN); plus a single-substitution sweep of wrong-typed arguments / wrong argument counts (oracle: no Go panic). C: codecs base64/base32/hex/gzip/urlquery x all pool values, json x every value of depth <= 2 (lists/maps of width <= 2 over 35 scalars and, at depth 2, over the 2569 values of depth <= 1; quick: the second element at depth 2 ranges over the scalars only), object route all, script route all up to depth 1 and every 5th (thorough: 16th) at depth 2; malformed = all strings of length <= 4 over {A,=,!,\\xff,%%,z} per codec as string and as byte_slice, plus codec-specific sets (json: length <= 4 over 10 JSON symbols; base32: length <= 8 over {A,7,=,!}; gzip: every prefix and every single-byte substitution of a valid stream); json codec vs json.marshal/unmarshal on all of those. I (result independence): per codec every ORDERED pair (x, y) of pool values whose single round trip holds (a 12-14 value sub-pool per codec incl. empty and 300-byte inputs run on one goroutine, then in parallel the whole pool - 30 values for the byte codecs and urlquery; json: scalars + sub-pool in quick, all values of depth <= 1 in thorough): e1 := encode(x), deep copy, e2 := encode(y), then e1 unchanged, decode(e1) == x, decode(e2) == y, and d1 := decode(encode(x)) unchanged by a later decode(encode(y)); object API all pairs, scripts every 3rd pair (thorough: all; json every 64th); plus, for every wrapper row whose result is a byte_slice/list/map, all ordered pairs over 12 (thorough 60) argument tuples: the first result's Inspect() is unchanged by the second call. distinct = distinct (target, expected result) pairs",
 		len(poolS), len(poolI), len(poolF), len(poolB), len(poolBL), len(poolSL), len(poolNumStr), len(poolPath), len(poolGlob), len(poolPat), len(poolB64In), stride))
 }
 
@@ -687,6 +688,10 @@ func replayOne(r *ev.Run, table []*fn, path string) {
 	}
 	r.Outcome("replay")
 	r.Outcome("replay2")
+	if head.Part == "I1" || head.Part == "I2" {
+		replayIndep(r, table, path)
+		return
+	}
 	if head.Part != "W" {
 		replayCodec(r, path)
 		return
